@@ -141,6 +141,10 @@ def names_of(ts: typing.List[dict]) -> typing.Set[str]:
     return out
 
 
+def attr_names_of(ts: typing.List[dict]) -> typing.Set[str]:
+    return {n for t in ts for n in list(t['names']) + [c['name'] for c in t['consts']]}
+
+
 def big_float_const(ts: typing.List[dict]) -> bool:
     lim = 1 << 1024
     return any(c['kind'] == 'f' and (abs(int(c['num'])) >= lim or int(c['den']) >= lim) for t in ts for c in t['consts'])
@@ -150,8 +154,9 @@ def big_float_const(ts: typing.List[dict]) -> bool:
 # known findings: trigger predicates, remedies, signatures (entries live in known_findings.d/C06.json)
 # ---------------------------------------------------------------------------------------------
 class Job:
-    def __init__(self, ci, cfg, variant, rel, out, tinfo, clos, types=None, chains=None):
+    def __init__(self, ci, cfg, variant, rel, out, tinfo, clos, types=None, chains=None, rels=None):
         self.ci, self.cfg, self.variant, self.rel, self.out, self.t, self.clos = ci, cfg, variant, rel, out, tinfo, clos
+        self.rels = rels or {}            # tkey -> generated file of that type (relative to out)
         self.types = types or {}          # tkey -> type dump (whole case)
         self.chains = chains or {}        # tkey -> namespace chain the real C++ header opens (stropped; + the service's own namespace)
         self.rc = 0
@@ -206,14 +211,14 @@ FINDINGS: typing.Dict[str, dict] = {
         trigger=lambda j: j.lang == 'cpp' and bool(clashing_roots(j)),
         signature=r'declared as non-function|redeclared as different kind of|conflicts with a previous declaration|is ambiguous|does not name a type|has not been declared|is not a (class|namespace)|expected'),
     'F-C06-CPP-MEMBER-CLASH': dict(
-        trigger=lambda j: (j.lang == 'cpp' or (j.lang == 'c' and j.variant == 'cxx14')) and (
-            bool({'size_t', 'std'} & names_of(j.clos)) or ('allocator_type' in names_of(j.clos) and (j.cfg['std'] or '').endswith('pmr'))),
+        trigger=lambda j: (j.lang == 'cpp' or (j.lang == 'c' and j.variant == 'cxx14')) and bool(verbatim_names(
+            j, ({'size_t', 'std'} | ({'allocator_type'} if (j.cfg['std'] or '').endswith('pmr') else set())) & attr_names_of(j.clos))),
         signature=r'.'),      # diagnostics of these clashes vary (allocator traits, template lookup): any first diagnostic; the trigger is by name
     'F-C06-CPP-NS-SHADOW': dict(
         trigger=lambda j: ns_shadow(j),
         signature=r'is not a member of|does not name a type|has not been declared|is not a (class|namespace)'),
     'F-C06-PY-MODULE-SHADOW': dict(
-        trigger=lambda j: j.lang == 'py' and bool({t['ns'][0] for t in j.clos} & set(getattr(sys, 'stdlib_module_names', ()))),
+        trigger=lambda j: j.lang == 'py' and bool(py_shadowing_packages(j)),
         signature=r'.'),
     'F-C06-PY-POD': dict(
         trigger=lambda j: j.lang == 'py' and j.cfg['pod'],
@@ -243,8 +248,50 @@ def macro_names(j: Job) -> typing.Set[str]:
         cmd = [x for x in getattr(j, 'last_cmd', j.cmd) if x != '-fsyntax-only'] + ['-dM', '-E']
         p = subprocess.run(cmd, input='#include "%s"\n' % j.rel, stdout=subprocess.PIPE, stderr=subprocess.DEVNULL, text=True, errors='replace')
         macros = set(re.findall(r'^#define (\w+)', p.stdout, flags=re.M))
-        j._macros = {n for n in names_of(j.clos) if n in macros}
+        j._macros = verbatim_names(j, {n for n in names_of(j.clos) if n in macros})
     return j._macros
+
+
+_code_cache: typing.Dict[str, str] = {}
+
+
+def code_text(path: str) -> str:
+    """a generated C/C++ file without comments and string literals"""
+    if path not in _code_cache:
+        try:
+            txt = open(path, encoding='utf-8', errors='replace').read()
+        except OSError:
+            txt = ''
+        txt = re.sub(r'"(?:\\.|[^"\\\n])*"', '""', txt)
+        txt = re.sub(r'//[^\n]*', '', txt)
+        txt = re.sub(r'/\*.*?\*/', '', txt, flags=re.S)
+        _code_cache[path] = txt
+    return _code_cache[path]
+
+
+def verbatim_names(j: Job, names: typing.Iterable[str]) -> typing.Set[str]:
+    """those DSDL names that the generated code of the translation unit (the header and the headers of its dependencies) contains as an
+    identifier token as they are, i.e. that stropping left unchanged"""
+    texts = [code_text(os.path.join(j.out, j.rels[tkey(t)])) for t in j.clos if tkey(t) in j.rels]
+    if not texts:
+        texts = [code_text(os.path.join(j.out, j.rel))]
+    out = set()
+    for n in names:
+        rx = re.compile(r'(?<![A-Za-z0-9_])' + re.escape(n) + r'(?![A-Za-z0-9_])')
+        if any(rx.search(t) for t in texts):
+            out.add(n)
+    return out
+
+
+def py_shadowing_packages(j: Job) -> typing.Set[str]:
+    """top-level packages of the output directory (= stropped root namespaces, of the module's own root or of any other root generated
+    into the same directory) that are named like a standard-library module: with the output directory on sys.path they shadow it, or
+    are shadowed by a built-in module"""
+    try:
+        tops = {n for n in os.listdir(j.out) if os.path.isdir(os.path.join(j.out, n))}
+    except OSError:
+        tops = set()
+    return tops & set(getattr(sys, 'stdlib_module_names', ()))
 
 
 def ns_shadow(j: Job) -> bool:
@@ -282,11 +329,16 @@ def clashing_roots(j: Job) -> typing.Set[str]:
     """root namespace names of the closure that cannot be declared as a namespace after the standard headers (libc globals such as index, abs)"""
     out = set()
     std = (j.cfg.get('std') or 'c++14').replace('-pmr', '')
-    for r in {t['ns'][0] for t in j.clos}:
+    for r in {j.chains[tkey(t)][0] for t in j.clos if j.chains.get(tkey(t))}:      # the root namespace names as the headers spell them
         if (r, std) not in _clash_cache:
-            tu = ''.join('#include <%s>\n' % h for h in ('cstring', 'cstdlib', 'cmath', 'cstdint', 'limits', 'array', 'vector', 'algorithm', 'utility',
-                                                         'type_traits', 'climits', 'cfloat')) + 'namespace %s { }\n' % r
-            p = subprocess.run(['g++', '-std=' + std, '-fsyntax-only', '-x', 'c++', '-'], input=tu, stdout=subprocess.PIPE, stderr=subprocess.STDOUT, text=True)
+            hdrs = ['cstring', 'cstdlib', 'cmath', 'cstdint', 'limits', 'array', 'vector', 'bitset', 'algorithm', 'utility', 'type_traits', 'climits',
+                    'cfloat', 'cctype', 'cstdio', 'cwchar', 'cwctype', 'ctime', 'csignal', 'cerrno', 'clocale', 'memory', 'new']
+            if std != 'c++14':
+                hdrs += ['variant', 'memory_resource']
+            tu = ''.join('#include <%s>\n' % h for h in hdrs) + 'namespace %s { }\n' % r
+            # -Wall -Werror as in the project flags: gcc built-ins (memcpy, tolower, ...) clash even without their header
+            p = subprocess.run(['g++', '-std=' + std, '-Wall', '-Wextra', '-Werror', '-fsyntax-only', '-x', 'c++', '-'], input=tu, stdout=subprocess.PIPE,
+                               stderr=subprocess.STDOUT, text=True)
             _clash_cache[(r, std)] = p.returncode != 0
         if _clash_cache[(r, std)]:
             out.add(r)
@@ -359,8 +411,11 @@ def make_jobs(ci: int, res: dict, cfgs: typing.List[dict]) -> typing.List[Job]:
         if not r or not r['ok']:
             continue
         chains = {}
+        rels = {}
         for rel, info in r['files'].items():
             k = header_type(types, info)
+            if k:
+                rels[k] = rel
             if k and cfg['lang'] == 'cpp':
                 chains[k] = list(info.get('ns_open') or [])
         for rel, info in sorted(r['files'].items()):
@@ -369,7 +424,7 @@ def make_jobs(ci: int, res: dict, cfgs: typing.List[dict]) -> typing.List[Job]:
             k = header_type(types, info)
             clos = closure(types, k) if k else list(types.values())
             for variant in (['c11', 'cxx14'] if cfg['lang'] == 'c' else ['own']):
-                jobs.append(Job(ci, cfg, variant, rel, r['out'], types.get(k) if k else None, clos, types, chains))
+                jobs.append(Job(ci, cfg, variant, rel, r['out'], types.get(k) if k else None, clos, types, chains, rels))
     return jobs
 
 
